@@ -5,4 +5,4 @@ From IronCalc Require Import Base.Prelude Eval.Spill Sheet.Wf.
 Extraction Language OCaml.
 Extraction "model_c27.ml"
   Wf.wf_workbook_b Wf.names_valid_b Wf.names_unique_b Wf.ids_unique_b Wf.cells_ok_b Wf.xfs_ok_b
-  Wf.cols_ok_b Wf.rows_ok_b Wf.spills_ok_b Wf.dnames_ok_b Wf.init Wf.mkWb Wf.mkSheet.
+  Wf.cols_ok_b Wf.rows_ok_b Wf.spills_ok_b Wf.dnames_ok_b Wf.init Wf.mkWb Wf.mkSheet Wf.delete_columns_descrs Wf.insert_columns_descrs.
